@@ -107,7 +107,7 @@ def interp(skind, series, pos, neg, t, s, mode, dt):
     return at(pos, c) * math.exp(-el / TD) - at(neg, c) * math.exp(-el / TR)
 
 
-def shard(conn, skind, dt, maxk, fractional, T, F=2, only_assign=None, only_clear=(), tol=0.0, alphabet_override=None, reassign_at=None, mode="previous", dt_from=None):
+def shard(conn, skind, dt, maxk, fractional, T, F=2, only_assign=None, only_clear=(), tol=0.0, alphabet_override=None, reassign_at=None, mode="previous", dt_from=None, float64=False):
     """mode: the synapse's (spike) interpolation mode for off-grid delays; dt_from: both connections are constructed with this
     step time and then assigned ``dt`` through the public setter before the run (the records must follow).
     reassign_at = r: after r steps the per-synapse delays are replaced through the public setter (``conn.delay = D2``, the way
@@ -133,7 +133,7 @@ def shard(conn, skind, dt, maxk, fractional, T, F=2, only_assign=None, only_clea
         x = torch.tensor([h[t] for h in hs], dtype=torch.bool)
         xs.append(x.reshape(B, 1, CONV_GEOM[conn][0], CONV_GEOM[conn][1]) if isconv else x)
     cfg = {"conn": conn, "synapse": skind, "dt": dt, "max_delay": maxdelay, "maxk": maxk, "fractional": fractional, "T": T, "F": F,
-           "batch=histories": B, "interp_tol": tol, "delay_alphabet": alphabet_override, "interp_mode": mode, "constructed_with_dt": dt_from}
+           "batch=histories": B, "interp_tol": tol, "delay_alphabet": alphabet_override, "interp_mode": mode, "constructed_with_dt": dt_from, "float64": float64}
     for assign in itertools.product(alphabet, repeat=len(pos)):
         if only_assign is not None and list(assign) != list(only_assign):
             continue
@@ -153,6 +153,8 @@ def shard(conn, skind, dt, maxk, fractional, T, F=2, only_assign=None, only_clea
                 if dt_from is not None:
                     cd.dt = dt
                     cu.dt = dt
+                if float64:  # the whole connection converted with .to(float64): delays, histories and selectors follow
+                    cd, cu = cd.to(torch.float64), cu.to(torch.float64)
             except Exception as ex:
                 tally.violation(f"exception:construct:{conn}:{skind}:{type(ex).__name__}", case, repr(ex))
                 return tally
@@ -232,7 +234,7 @@ def shard(conn, skind, dt, maxk, fractional, T, F=2, only_assign=None, only_clea
                             view_c[:, n, :, f] = ci
                             view_s[:, n, :, f] = interp("delta", spk, None, None, tl, s, mode, dt)[:, n, :]
                 def bad(a, b):
-                    return a.shape != b.shape or not torch.allclose(a, b, rtol=1e-5, atol=1e-5)
+                    return a.shape != b.shape or not torch.allclose(a.to(torch.float64), b.to(torch.float64), rtol=1e-5, atol=1e-5)
 
                 if bad(od, exp):
                     idx = (od - exp).abs().reshape(B, -1).amax(1).argmax().item() if od.shape == exp.shape else 0
@@ -307,6 +309,12 @@ def run(rep):
         jobs.append((shard, ("direct", skind, 0.5, 2, False, T, 2, None, (), 0.0, None, None, "previous", 1.0)))
         jobs.append((shard, ("direct", skind, 0.75, 2, False, T, 2, None, (), 0.0, (0, 1), None, "previous", 1.0)))
         jobs.append((shard, ("dense", skind, 1.3, 2, False, T, 2, None, (), 1e-6, (0, 1), None, "previous", 1.0)))
+    # exact on-grid delays of 3 and 6 steps at the non-representable step time 1.7 with tolerance 0 (float32(k*1.7)/1.7 is not an
+    # integer, yet 1.7*k reproduces the stored delay bit for bit, so "within tolerance 0 of a multiple of the step time" is decided
+    # exactly), in float32 and for a connection converted to float64
+    for skind in ("delta", "exp"):
+        for f64 in (False, True):
+            jobs.append((shard, ("direct", skind, 1.7, 6, False, 7, 2, None, (), 0.0, (0, 3, 6), None, "previous", None, f64)))
     # a 2x2 kernel: row/column order of the per-kernel-element delays matters (2x3 input, 64 input letters -> shorter histories)
     for skind in ("delta", "exp") if quick else ("delta", "deltaplus", "exp", "dexp"):
         jobs.append((shard, ("conv22", skind, 1.0, 1 if quick else 2, False, 2, 1)))
@@ -338,6 +346,6 @@ def run(rep):
 def replay(case):
     t = shard(case["conn"], case["synapse"], case["dt"], case["maxk"], case["fractional"], case["T"], case.get("F", 2),
               only_assign=case["delays_in_steps"], only_clear=case["clear_before_step"], tol=case.get("interp_tol", 0.0), reassign_at=case.get("reassign_at"),
-              mode=case.get("interp_mode", "previous"), dt_from=case.get("constructed_with_dt"),
+              mode=case.get("interp_mode", "previous"), dt_from=case.get("constructed_with_dt"), float64=case.get("float64", False),
               alphabet_override=case.get("delay_alphabet"))
     return {"violations": [[v["key"], v["message"]] for v in t.violations]}
